@@ -921,6 +921,12 @@ class Sim:
                 st, eq = call(lambda: obj == build(m2))
                 if st == "exc" or eq is not False:
                     self.fail("model:eq-true-for-different-container", got=eq if st == "ok" else exc_name(eq), **where)
+                if m.n >= 1:
+                    # the same container with its last atom once more (another length) must be unequal as well
+                    m3 = sub_atoms(M(m.kind, m.ann, m.coord, m.box, None), list(range(m.n)) + [m.n - 1])
+                    st, eq = call(lambda: obj == build(m3))
+                    if st == "exc" or eq is not False:
+                        self.fail("model:eq-true-for-different-container", what="one more atom", got=eq if st == "ok" else exc_name(eq), **where)
         if n == 0 or (m.kind == "stack" and m.m == 0):
             self.res.stats["probe:empty-container"] += 1
 
